@@ -130,6 +130,8 @@ func run(ci any, r *mon.Rec) {
 				ls = append(ls, rng.Intn(65536))
 			}
 		}
+		var prevErr *packet.ErrorParseTCP
+		var prevWant []byte
 		for _, l := range ls {
 			tid, unit := uint16(rng.Intn(65536)), uint8(rng.Intn(256))
 			h := []byte{byte(tid >> 8), byte(tid), byte(c.Proto >> 8), byte(c.Proto), byte(l >> 8), byte(l), unit, byte(c.FC)}
@@ -152,8 +154,17 @@ func run(ci any, r *mon.Rec) {
 				if cerr == packet.ErrTCPDataTooShort {
 					r.Violate(c, "complete-header-too-short", a, fmt.Sprintf("header % x classified too short: server would wait forever", h))
 				}
+				if prevErr != nil && !flag {
+					if b := prevErr.Bytes(); string(b) != string(prevWant) {
+						r.Violate(c, "classifier-result-changed-by-later-call", mon.Attrs{"fc": c.FC}, fmt.Sprintf("exception returned for an earlier header was % x, after a later classifier call it reads % x", prevWant, b))
+					}
+					prevErr = nil
+				}
 				if !specref.Supported(uint8(c.FC)) && l >= 3 && !flag {
 					var ep *packet.ErrorParseTCP
+					if cerr != nil && errors.As(cerr, &ep) {
+						prevErr, prevWant = ep, append([]byte{}, ep.Bytes()...)
+					}
 					if cerr == nil || !errors.As(cerr, &ep) {
 						r.Violate(c, "unsupported-not-classified", a, fmt.Sprintf("header % x: (%d, %v)", h, n, cerr))
 					} else {
@@ -221,6 +232,9 @@ func run(ci any, r *mon.Rec) {
 						}
 						if !validException(ep.Bytes()) {
 							r.Violate(c, "dispatcher-exception-malformed", mon.Attrs{"fc": c.FC}, fmt.Sprintf("n=%d header % x: % x", n, h, ep.Bytes()))
+						} else if ep.Packet.Function != 0 && (ep.Packet.Function != uint8(c.FC) || ep.Packet.TransactionID != tid || ep.Packet.UnitID != unit) {
+							// an exception that names a request at all must name THIS request (unfilled ones - function 0 - are header-level refusals)
+							r.Violate(c, "dispatcher-exception-misaddressed", mon.Attrs{"fc": c.FC}, fmt.Sprintf("n=%d frame % x: exception % x does not carry the frame's tid/unit/function", n, fr[:min(n, 24)], ep.Bytes()))
 						}
 						r.Distinct(mon.Mix(3, uint64(c.FC), uint64(ll), 1))
 					}
